@@ -28,7 +28,9 @@ RULE = ('histories over all DefaultHandler callbacks (write_keepalive on/off) wi
         'restart, or a torn write; distinct by history. Peer address spelled as IPv4, lower-case and upper-case IPv6; update '
         'payloads synthetic (also 10-20 KB records of 500 / 1000 prefixes) and as decoded by yabgp from one well-formed UPDATE '
         'per address family. Rotation thresholds from 0 (every record rotates) up; clock strictly increasing or coarser than the event rate.')
-ASSUMPTIONS = ['update payloads are synthetic JSON-safe ones plus what yabgp itself decodes from one well-formed UPDATE per address '
+ASSUMPTIONS = ['"legacy" histories start on a directory that holds a log of an earlier release (lines are Python lists [t, seq, type, msg, '
+               'afi_safi], which the agent still reads when it looks for the last sequence number): those lines are not judged, numbering continues after them',
+               'update payloads are synthetic JSON-safe ones plus what yabgp itself decodes from one well-formed UPDATE per address '
                'family (octet-string results only where stdlib json and simplejson both refuse them)',
                'torn-write model: a prefix of the bytes of the last append survives (append-only file, no reordering)',
                'payloads are limited to types that stdlib json and simplejson serialise identically',
@@ -163,7 +165,7 @@ EVENTS = ['update_received', 'on_update_error', 'keepalive_received', 'open_rece
 
 
 class Run(object):
-    def __init__(self, max_size, write_keepalive, peer=PEER, coarse_clock=False):
+    def __init__(self, max_size, write_keepalive, peer=PEER, coarse_clock=False, legacy=0):
         self.addr = peer
         self.dir = tempfile.mkdtemp(prefix='verif-c20-')
         self.clock = Clock(coarse_clock)
@@ -182,6 +184,18 @@ class Run(object):
         self.dead = False
         self.rotations = 0
         self.restarts = 0
+        # 'legacy': the directory already holds a log written by an earlier yabgp release, whose lines are Python lists
+        # [t, seq, type, msg, afi_safi] (the agent still reads that format when it looks for the last sequence number):
+        # numbering goes on after it
+        self.legacy = []
+        if legacy:
+            os.makedirs(self.path())
+            for i in range(1, legacy + 1):
+                self.legacy.append(('%r\n' % ([1500000000.0 + i, i, 2, {'attr': {1: 0, 2: [(2, [65001])], 3: '10.0.0.1'}, 'nlri': ['10.%d.0.0/16' % i],
+                                                                          'withdraw': []}, (1, 1)],)).encode())
+            with open(os.path.join(self.path(), '1500000000.5.msg'), 'wb') as fh:
+                fh.write(b''.join(self.legacy))
+            self.expected = legacy
         self.start()
 
     def path(self):
@@ -289,6 +303,9 @@ class Run(object):
             if lines and lines[-1] == b'':
                 lines = lines[:-1]
             for ln in lines:
+                if ln + b'\n' in self.legacy:
+                    seqs.append(self.legacy.index(ln + b'\n') + 1)
+                    continue
                 try:
                     rec = json.loads(ln.decode('utf-8'))
                     if not isinstance(rec, dict):
@@ -335,7 +352,8 @@ class Run(object):
 
 
 def run_case(case):
-    run = Run(case['max_size'], case['write_keepalive'], PEERS[case.get('peer', 0) % len(PEERS)], case.get('clock') == 'coarse')
+    run = Run(case['max_size'], case['write_keepalive'], PEERS[case.get('peer', 0) % len(PEERS)], case.get('clock') == 'coarse',
+              case.get('legacy', 0))
     try:
         for op in case['ops']:
             if run.h is None or run.dead:
@@ -366,6 +384,7 @@ op = st.one_of(ev_op, ev_op, ev_op, st.just(['restart']),
                          st.one_of(st.integers(0, 400), st.integers(0, 30000))).map(list))
 case_strategy = st.fixed_dictionaries({'max_size': st.sampled_from([0, 1, 60, 150, 150, 400, 1000, 10 ** 9]), 'write_keepalive': st.booleans(),
                                        'clock': st.sampled_from(['strict', 'strict', 'coarse']),
+                                       'legacy': st.sampled_from([0, 0, 0, 0, 1, 5, 70]),
                                        'peer': st.sampled_from([0, 0, 1, 2, 3]),
                                        'ops': st.lists(op, min_size=1, max_size=30)})
 
@@ -392,9 +411,9 @@ def run_shard(spec, seed, col, tier):
         alpha = [['ev', 0, 0], ['ev', 0, 2], ['ev', 7, 4], ['restart'], ['torn', 0, 0, 5], ['torn', 0, 2, 150], ['torn', 7, 4, 1],
                  ['ev', 0, 201], ['torn', 0, 201, 9000], ['ev', 0, 300], ['ev', 0, 303]]
         seqs = list(itertools.product(range(len(alpha)), repeat=spec['len']))[spec['part']::spec['parts']]
-        for ms, clock in ((150, 'strict'), (10 ** 9, 'strict'), (0, 'coarse'), (150, 'coarse')):
+        for ms, clock, legacy in ((150, 'strict', 0), (10 ** 9, 'strict', 0), (0, 'coarse', 0), (150, 'coarse', 0), (10 ** 9, 'strict', 3), (150, 'strict', 2)):
             for s in seqs:
-                case = {'max_size': ms, 'write_keepalive': False, 'clock': clock, 'ops': [alpha[i] for i in s] + [['ev', 0, 1]]}
+                case = {'max_size': ms, 'write_keepalive': False, 'clock': clock, 'legacy': legacy, 'ops': [alpha[i] for i in s] + [['ev', 0, 1]]}
                 res, nt, info = run_case(case)
                 col.case(case, nt, labels=['exhaustive'])
                 for sig, detail in res:
